@@ -227,6 +227,11 @@ impl<Auth: Sasl> ConnectionOptions<Auth> {
         })
     }
 
+    #[cfg(amiquip_verif)]
+    pub(crate) fn verif_information(&self) -> Option<String> {
+        self.information.clone()
+    }
+
     pub(crate) fn make_open(&self) -> Open {
         Open {
             virtual_host: self.virtual_host.clone(),
